@@ -15,6 +15,7 @@ LEAVES = {"X": ("a", "b", "c"), "Y": ("a", "b", "c")}
 LAZY = {"calc", "proj", "sel", "slice", "chain"}
 EAGER = {"sort", "dedup", "mat"}
 LABELS = ("calc d", "proj -a", "sel a>k", "slice s:e", "slice s:", "sort b,-a", "dedup", "sel false", "proj none")
+LABELS2 = LABELS + ("sort a", "sort -a")  # one-directional sorts (what a top-N short-cut would look for), depth <= 2 (+ "sort a" at depth 3)
 
 
 def _counting_payload(rows, materialized):
@@ -66,7 +67,7 @@ def shapes(tier, seed):
         for d in range(1, depth + 1):
             if base != X and d == depth:
                 continue
-            for labs, node, p in templates.unary_sequences(base, LEAVES, d, "std", slice_hi=4, labels=LABELS):
+            for labs, node, p in templates.unary_sequences(base, LEAVES, d, "std", slice_hi=4, labels=LABELS2 if d <= 2 else LABELS2[:-1]):
                 for payload in ("seq", "gen"):
                     if payload == "gen" and d == depth and tier == "quick":
                         continue
